@@ -4,12 +4,14 @@ import json
 
 from harness.core import pool, tb
 
-PROOF_MODULE = "OdeVerif.Proofs.C09"
+PROOF_MODULE = ["OdeVerif.Proofs.C09", "OdeVerif.Proofs.RefineFromJson"]
+GENERATED = ['Constants', 'PyFromJson']
 THEOREMS = ["OdeVerif.C09.wellformed_accepted", "OdeVerif.C09.no_expression_rejected", "OdeVerif.C09.eq_count_rejected",
             "OdeVerif.C09.missing_initial_values_rejected", "OdeVerif.C09.both_spellings_rejected", "OdeVerif.C09.single_value_wrong_order_rejected",
             "OdeVerif.C09.wrong_number_rejected", "OdeVerif.C09.other_variable_rejected", "OdeVerif.C09.order_too_high_rejected",
             "OdeVerif.C09.duplicate_rejected", "OdeVerif.C09.reserved_name_rejected", "OdeVerif.C09.marker_in_name_rejected",
-            "OdeVerif.C09.validateAll_first_bad"]
+            "OdeVerif.C09.validateAll_first_bad",
+            "OdeVerif.Refine.fromJson_refines", "OdeVerif.Refine.fromJson_never_ivMissing"]
 LEVEL = "proof"
 
 NAMES = ["x", "V_m", "g_ex", "y2", "_u", "I"]
